@@ -45,7 +45,7 @@ theorem coerceInstance_eq (t : Token) :
       else match tokenBytes t with
         | some b => .ok (some b)
         | none => .error (coerceErr t) := by
-  rcases t with n | z | d | b | _
+  rcases t with n | z | d | b | u | _
   · by_cases h : n < 256 <;> simp [coerceInstance, tokenBytes, coerceErr, h]
   · unfold coerceInstance tokenBytes
     simp only [reduceCtorEq, if_false]
@@ -68,6 +68,7 @@ theorem coerceInstance_eq (t : Token) :
   · simp only [coerceInstance, tokenBytes, encodeOpPushdata_eq, coerceErr, reduceCtorEq, if_false]
     rcases pushEncode d with _ | e <;> rfl
   · rcases b <;> simp [coerceInstance, tokenBytes, encodeOpN]
+  · simp [coerceInstance, tokenBytes]
   · simp [coerceInstance]
 
 /-- exhausting the generator and joining, against the reference builder -/
@@ -216,7 +217,7 @@ theorem readback_token (t : Token) (a : Bytes) (h : tokenBytes t = some a) (hd :
     refine ⟨idx + ((a ++ rest).length - rest.length), ?_, ?_⟩
     · rw [rawIterFrom_of_getOp hg]; simp only [List.map_cons, hc]
     · rw [rawIterFrom_of_getOp hg]
-  rcases t with n | z | d | b | _
+  rcases t with n | z | d | b | u | _
   · -- opcode
     simp only [Token.inDomain] at hd
     simp only [tokenBytes] at h
@@ -281,6 +282,7 @@ theorem readback_token (t : Token) (a : Bytes) (h : tokenBytes t = some a) (hd :
     · refine ⟨0x51, [], ?_, ?_⟩
       · simp [getOp]
       · simp [cookTok, canonTok]
+  · exact absurd hd (by simp [Token.inDomain])
   · simp [tokenBytes] at h
 
 /-- reading a built script back: the canonical tokens, and no error -/
@@ -308,7 +310,7 @@ theorem readback (ts : List Token) : ∀ (s : Bytes) (idx : Nat), Spec.Script.bu
 
 /-- rebuilding from the canonical token gives the same bytes -/
 theorem tokenBytes_canonTok (t : Token) (hd : Token.inDomain t) : tokenBytes (canonTok t) = tokenBytes t := by
-  rcases t with n | z | d | b | _
+  rcases t with n | z | d | b | u | _
   · simp only [Token.inDomain] at hd
     by_cases h : 0x51 ≤ n ∧ n ≤ 0x60
     · have h1 : n < 256 := by omega
@@ -329,6 +331,7 @@ theorem tokenBytes_canonTok (t : Token) (hd : Token.inDomain t) : tokenBytes (ca
     · subst h; simp [canonTok, tokenBytes, pushEncode]
     · simp only [canonTok, h, if_false]
   · rcases b <;> simp [canonTok, tokenBytes]
+  · rfl
   · rfl
 
 theorem build_canon (ts : List Token) (hd : ∀ t ∈ ts, Token.inDomain t) :
